@@ -76,4 +76,13 @@ theorem cut_example_acts :
       [60, 33, 45, 45, 60, 112, 62, 45, 45, 62, 60, 112, 62, 36, 120, 60, 47, 112, 62, 60, 47, 100, 105, 118, 62] := by
   decide +kernel
 
+/-- the same schedule through a chain of three stages built by `Chain.new` (two html filters and a text filter) -/
+theorem cut_example_multistage :
+    (Chain.new noCodec id [.html "prepend_child" [[100, 105, 118], [112]] none [36], .html "append_child" [[100, 105, 118]] none [35],
+        .text .append [33]] []).run htmlTokenize evalStandIn noCodec cutBody =
+      (Chain.new noCodec id [.html "prepend_child" [[100, 105, 118], [112]] none [36], .html "append_child" [[100, 105, 118]] none [35],
+        .text .append [33]] []).run htmlTokenize evalStandIn noCodec [cutBody.flatten] :=
+  chunk_invariant_final' evalStandIn id _ [] rfl
+    (by intro f hf; simp at hf; rcases hf with rfl | rfl | rfl <;> (unfold V; decide)) cutBody (by decide +kernel)
+
 end Rio.C03
